@@ -35,7 +35,7 @@ NREG = 10
 CTORS = ['ni', 'nf', 'ns', 'np', 'na', 'na', 'na', 'nl', 'nl', 'nt', 'nt', 'nr', 'nr', 'nu', 'nR', 'ng']
 MUT = ['pu', 'pu', 'ap', 'pa', 'pa', 'po', 'pt', 'se', 'se', 'rm', 'rm', 'so', 'rs', 'cl', 'cc', 'as', 'sw', 'cp']
 OBS = ['ge', 'ge', 'me', 'ln', 'ha', 'it', 'it', 'ib', 'sl', 'rv', 'zp', 'en', 'fi', 'ma', 'ty', 'sh', 'de', 'ci', 'cm']
-FREE = ['tc', 'tc', 'tn', 'rg', 'fm', 'fm', 'sn', 'ca', 'gc', 'D', 'dr', 'dl']
+FREE = ['tc', 'tc', 'tn', 'rg', 'fm', 'fm', 'fm', 'sn', 'ca', 'gc', 'gc', 'D', 'D', 'dr', 'dr', 'dl', 'dl', 'th', 'mx', 'fl']
 
 
 def rint(rng):
@@ -275,6 +275,7 @@ CORPUS_WL = [
     'wl|na:0,0,5,3 it:0 pu:0,7 pa:0,5,2 ge:0,3 so:0,1 it:0 nl:1,2,4,1 it:1 ib:1 rv:1 nt:2,1,0,6,2 it:2 ge:2,3 rm:2,3 D '
     'tc:0,2,5,1 tn:1,2,3 rg:1,4,2 fm:0,12,-7 fm:2,5,9 fm:4,3,3 sn:5,17,33 ca:1,2,3 gc D nr:3,0,3,5,1 it:3 ib:3 nu:4,5,2 '
     'it:4 ib:4 sl:0,1,1 zp:0,1 en:1 fi:0,1 ma:0 ty:0 ty:2 ha:0 ha:2 cp:0,5 cm:0,5 cc:0,5 D dl:0 gc D',
+    'wl|th:5,17,3 th:0,39,4 mx:1 fl:3,17,5 fl:0,300,99999 th:1,1,1 gc D',
     'wl|na:0,3,20,4 so:0,1 it:0 so:0,2 it:0 po:0 pt:0,-3 pa:0,9,-1 rs:0,3 it:0 cl:0 po:0 pu:0,1 D',
     'wl|nt:1,0,2,23,7 nt:2,1,3,23,1 rs:1,30 it:1 cl:1 se:1,4,4 it:1 cp:2,3 cm:2,3 ha:2 ha:3 gc nr:4,1,1,20,2 it:4 ib:4 rm:4,7 rm:4,8 D',
 ]
@@ -345,7 +346,7 @@ def run(ctx):
     def run_cfgs(cases, which):
         outs = {}
         def one(tag):
-            rc, lines, e = ctx.run_lines(hs[tag], cases, timeout=1200)
+            rc, lines, e = ctx.run_lines(hs[tag], cases, timeout=1200, env=dict(os.environ, H_TMPDIR=ctx.tmp))
             if len(lines) != len(cases):
                 raise RuntimeError('harness %s returned %d lines for %d cases: %s' % (tag, len(lines), len(cases), e[-500:]))
             return tag, lines
